@@ -1009,7 +1009,7 @@ doConvert(
             double                  thePrecision)
 {
     return executionContext.getXObjectFactory().createNumber(
-            theValues[XalanDOMString::size_type(thePrecision <= theSize ? thePrecision : theSize)]);
+            theValues[XalanDOMString::size_type(thePrecision < theSize ? thePrecision : theSize - 1)]);
 }
 
 
